@@ -18,7 +18,7 @@ Combos == <<MapBody(<<1, 5>>), MapBody(<<2, 3>>), MapBody(<<4, 17>>), MapBody(<<
             MapBody(<<19, 27>>), MapBody(<<22, 36>>), MapBody(<<6, 34>>), MapBody(<<7, 8>>), MapBody(<<12, 18>>),
             MapBody(<<1, 3, 7>>), MapBody(<<2, 19, 22>>), MapBody(<<21, 32>>), MapBody(<<23, 30, 31>>),
             MapsBody(<<<<1>>, <<5, 7>>>>), MapsBody(<<<<19>>, <<2>>>>), MapsBody(<<<<17, 4>>, <<22>>>>),
-            MapsBody(<<<<16>>, <<36>>>>), MapsBody(<<<<41>>, <<42, 43>>>>),
+            MapsBody(<<<<16>>, <<36>>>>), MapsBody(<<<<41>>, <<42, 43>>>>), MapBody(<<1, 47>>), MapsBody(<<<<47>>, <<5>>>>),
             KwBody(1), KwBody(2), KwBody(3), KwBody(4)>>
 Pool == Singles \o Combos
 NP == Len(Pool)
@@ -74,7 +74,8 @@ Cases2 == {[doc |-> Doc3(Pick(i, 1 + r), Pick(i, 2 + r), Pick(i, 3 + r), <<CPrin
 \* (3) two conditions in one rule
 Cases3 == {[doc |-> Doc3(Pick(i, 1), Pick(i, 2), Pick(i, 3), <<C_sel1, CPrint(TreeSeq[i], "min")>>),
             K |-> KSeq[(i % NK) + 1]] : i \in {j \in 1..Len(TreeSeq) : j % 9 = 0}}
-Small(c) == Cardinality(UNION {QAtoms(BodyQE(c.doc.dets[d].body, TRUE).e) : d \in 1..Len(c.doc.dets)}) <= 9
+\* (a CIDR network is one atom for a backend with a native CIDR expression, one per text block otherwise)
+Small(c) == Cardinality(UNION {QAtoms(BodyQE(c.doc.dets[d].body, c.K.cidr).e) : d \in 1..Len(c.doc.dets)}) <= 9
 ASSUME LET A == SetToSeq({c \in Cases1 \cup Cases2 \cup Cases3 : Small(c)})
            mine == SelectSeq([i \in 1..Len(A) |-> [id |-> i] @@ A[i]], LAMBDA c : c.id % NShards = Shard)
        IN  ndJsonSerialize(IOEnv.VERIF_OUT, mine)
